@@ -124,6 +124,22 @@ def case(arg):
                     if miss and b != "integ":
                         return fail("asked_is_pending", f"ask({act[1]}) returned {miss[:2]} but did not mark them pending")
                 bump("ask")
+                if act[2] and len(pts) >= 2 and rng.random() < 0.25 and not str(kn).startswith("bal:"):
+                    # the whole answer of a committing ask comes back in ONE batch (what a runner with a fast executor does):
+                    # several samples of the same new abscissa (AverageLearner1D), the batch path of Learner1D, ...
+                    ps = [p for p in pts if X.pend_key(kn, p) in {X.pend_key(kn, q) for q in r.outstanding}]
+                    ps = list({X.pend_key(kn, p): p for p in ps}.values())
+                    if len(ps) >= 2:
+                        vs = [X.value_of(kn, p) for p in ps]
+                        l.tell_many(ps, vs)
+                        for p, v in zip(ps, vs):
+                            k = X.data_key(kn, p)
+                            r.told.setdefault(k, v)
+                            r.told_last[k] = v
+                            r.told_points.append(p)
+                        pk = {X.pend_key(kn, p) for p in ps}
+                        r.outstanding = [q for q in r.outstanding if X.pend_key(kn, q) not in pk]
+                        bump("tell_many_whole_answer")
             elif act[0] == "tell":
                 p = act[1]
                 r.tell(p)
